@@ -8,15 +8,17 @@ RULE = ("for 16 of the 17 compiled routines: every API-reachable argument combin
         "(empty series, single sample, duplicates, empty IntervalSet, epochs before/after/between the samples; thorough: "
         "sizes 0..4 on {0..4} sampled) is executed (a) interpreted (NUMBA_DISABLE_JIT=1 subprocess) on bounds-checking "
         "arrays that also reject negative indices, (b) compiled, (c) on the Lean model; outcome classes ok / out-of-bounds / "
-        "unbound-local and results are compared. _jitperievent_trigger_average is exercised through "
-        "compute_event_trigger_average interpreted vs compiled only (no model). distinct = distinct (kernel, arguments)")
+        "unbound-local and results are compared. _jitperievent_trigger_average: kernel level vs model `eta` (exact rationals) on count bins laid out "
+        "per epoch with any feature samples, and through compute_event_trigger_average interpreted vs compiled. distinct = distinct (kernel, arguments)")
 PROVED = ("all array reads of the models of restrict*, in_interval, intersect, union, diff (incl. end2[j-1]), union_isets, "
           "fix_iset, remove_nan, cross_correlogram, overlap_split are a[i]'h reads: the in-bounds proofs are checked when "
           "the definitions are elaborated (no hypothesis beyond equal lengths of starts/ends); restrict_writes_in_bounds; "
           "restrictCount_counts (one counter per interval, counters add up to the number of selected samples); jitbin_safe "
           "(jitcount / _jitbin_array, ANY input); valuefrom_safe + valuefrom_safe_on_restricted; pericont_safe; threshold_safe "
-          "(n >= 2, samples inside a canonical support) and threshold_oob_witness (n <= 1: open finding)")
-NOT_PROVED = ("_jitperievent_trigger_average has no Lean model (interpreted-vs-compiled outcome tie only)")
+          "(n >= 2, samples inside a canonical support) and threshold_oob_witness (n <= 1: open finding); eta_safe "
+          "(_jitperievent_trigger_average: every read in bounds, scan position assigned only from a computed i_start, ANY input)")
+NOT_PROVED = ("the float arithmetic of the event-trigger average (model in exact rationals, compared within 1e-9); count columns beyond one and "
+              "feature values of more than one dimension are handled by the kernel uniformly and are not in the model")
 ASSUMPTIONS = ["numba implements the Python text of a kernel on executions that stay in bounds and read assigned locals"]
 TRUSTED_EXTRA = ["the interpreted twin (NUMBA_DISABLE_JIT=1) is the same source text as the compiled kernel"]
 
@@ -88,6 +90,17 @@ def gen_cases(ctx):
     for st, en in big:
         for L, step in ((4, 1), (4, 2), (4, 3), (2, 1), (2, 2), (8, 2)):
             cases.append(("ovsplit", dict(st=st, en=en, L=L, step=step)))
+    # event-trigger-average kernel: count bins laid out per epoch as `count(bs, ep)` does, any feature samples
+    rng = ctx.rng
+    for _ in range(1500 if ctx.quick else 15000):
+        st, en = gen.rand_canonical(rng, 3, 14)
+        bs = rng.choice([1, 1, 2])
+        ta = [x for a, b in zip(st, en) for x in range(a, b - bs + 1, bs)]
+        ca = [rng.choice([0, 1, 1, 2, 3]) for _ in ta]
+        nf = rng.choice([0, 1, 2, 5, 9, 14])
+        tt = sorted(rng.choice(range(0, 15)) for _ in range(nf))
+        cases.append(("eta", dict(ta=ta, ca=ca, tt=tt, dd=[rng.randint(-5, 9) for _ in tt], st=st, en=en,
+                                  w=rng.choice([[0, 0], [1, 1], [2, 1], [1, 2], [3, 3], [0, 2]]), bs=bs)))
     if ctx.quick and len(cases) > 60000:
         keep = cases[::2]
         cases = keep
@@ -166,9 +179,9 @@ def run(ctx):
                 comp = kernels.call(k, a)
             except Exception as e:
                 comp = "exc %r" % (e,)
-            if json.dumps(comp) != json.dumps(res):
+            if not kernels.same(k, comp, res):
                 ctx.fail("oracle", "%s: compiled result differs from interpreted result" % k, inp, impl=comp, expected=res)
-            if m is not None and not isinstance(m, str) and json.dumps(m) != json.dumps(res):
+            if m is not None and not isinstance(m, str) and not kernels.same(k, m, res):
                 ctx.fail("corr", "%s: model result differs" % k, inp, impl=res, model=m)
     # event-trigger average: interpreted vs compiled through the API
     ec = eta_cases(ctx)
